@@ -131,6 +131,9 @@ func zzCheckRef(w *zzWorld, ref string, withGlobals bool) {
 		return
 	}
 	tip, err := zzVerifyFull(w, ref)
+	if err != nil {
+		verif.Observe("error["+ref+"]", err.Error())
+	}
 
 	allAuthorized := true
 	for _, e := range events {
